@@ -26,6 +26,12 @@ def cases(draw):
         setup = draw(vs.setups(nthermo=(2,), names=CHEAP3, p_catalogue=1.0))
     else:
         setup = draw(vs.setups(nthermo=(1,)))
+    return draw(vals_for(setup))
+
+
+@st.composite
+def vals_for(draw, setup):
+    """tag-class values (prefactor, energy) for every class of the calculator of this setup, barriers positive"""
     crys, sl, jn, calc = vs.calculator(setup)
     kT = draw(st.sampled_from([0.5, 1.0, 2.0]))
     n = len(sl)
